@@ -228,17 +228,17 @@ func c06GenMarker(r *verifx.Rng, keys []string) *string {
 	switch x := r.Intn(100); {
 	case x < 55 || len(keys) == 0:
 		if x >= 45 && x < 55 {
-			return sp(c06RandString(r, 1, 3))
+			return c06Str(c06RandString(r, 1, 3))
 		}
 		return nil
 	case x < 80:
-		return sp(verifx.Pick(r, keys))
+		return c06Str(verifx.Pick(r, keys))
 	case x < 90:
 		rs := c06Runes(verifx.Pick(r, keys))
 		m := strings.Join(rs[:1+r.Intn(len(rs))], "")
 		return &m
 	default:
-		return sp(verifx.Pick(r, keys) + verifx.Pick(r, c06Alphabet))
+		return c06Str(verifx.Pick(r, keys) + verifx.Pick(r, c06Alphabet))
 	}
 }
 
@@ -363,11 +363,11 @@ func c06Directed() []c06Case {
 	cs = append(cs, c06Case{
 		vops: []c06VOp{{kind: 0, key: "k"}, {kind: 3}, {kind: 0, key: "k"}, {kind: 0, key: "k"}, {kind: 4}, {kind: 0, key: "k"}, {kind: 0, key: "j"}},
 		queries: []c06Query{{op: "sv", msub: -1, max: 1000}, {op: "hv", msub: -1, max: 1000}, {op: "sv", msub: -1, max: 1}, {op: "hv", msub: -1, max: 2},
-			{op: "sv", mk: sp("k"), msub: 0, max: 1000}, {op: "hv", mk: sp("k"), msub: 2, max: 1000}}})
+			{op: "sv", mk: c06Str("k"), msub: 0, max: 1000}, {op: "hv", mk: c06Str("k"), msub: 2, max: 1000}}})
 	// 5: uploads: delimiter paging repeats a common prefix / loses entries
 	cs = append(cs, c06Case{ukeys: []string{"a", "b/1", "b/2", "c", "b/1"},
 		queries: []c06Query{{op: "su", delim: "/", msub: -1, max: 1}, {op: "hu", delim: "/", msub: -1, max: 1}, {op: "hu", delim: "/", msub: -1, max: 2},
-			{op: "hu", delim: "/", msub: -1, max: 1000}, {op: "hu", msub: -1, max: 1}, {op: "su", msub: -1, max: 2}, {op: "hu", mk: sp("b/1"), msub: 2, max: 1}}})
+			{op: "hu", delim: "/", msub: -1, max: 1000}, {op: "hu", msub: -1, max: 1}, {op: "su", msub: -1, max: 2}, {op: "hu", mk: c06Str("b/1"), msub: 2, max: 1}}})
 	// 6: a delimiter of two characters that straddles the end of the prefix
 	cs = append(cs, c06Case{okeys: []string{"aab", "ab", "aaab"},
 		vops:  []c06VOp{{kind: 3}, {kind: 0, key: "aab"}, {kind: 0, key: "ab"}},
@@ -387,7 +387,7 @@ func c06Directed() []c06Case {
 	cs = append(cs, c06Case{
 		vops: []c06VOp{{kind: 0, key: "a/x"}, {kind: 3}, {kind: 0, key: "a/x"}, {kind: 0, key: "a/y"}, {kind: 0, key: "b"}, {kind: 1, key: "b"}, {kind: 0, key: "b"}, {kind: 0, key: "c/z"}, {kind: 1, key: "a/x"}},
 		queries: []c06Query{{op: "sv", delim: "/", msub: -1, max: 1}, {op: "hv", delim: "/", msub: -1, max: 1}, {op: "hv", delim: "/", msub: -1, max: 2}, {op: "sv", msub: -1, max: 2},
-			{op: "hv", msub: -1, max: 3}, {op: "hv", pfx: "a/", delim: "/", msub: -1, max: 1}, {op: "sv", mk: sp("a/x"), msub: -1, max: 2}, {op: "hv", mk: sp("b"), msub: 4, max: 1}}})
+			{op: "hv", msub: -1, max: 3}, {op: "hv", pfx: "a/", delim: "/", msub: -1, max: 1}, {op: "sv", mk: c06Str("a/x"), msub: -1, max: 2}, {op: "hv", mk: c06Str("b"), msub: 4, max: 1}}})
 	return cs
 }
 
@@ -395,7 +395,9 @@ func c06Directed() []c06Case {
 
 // Every set of at most 3 keys out of a pool of 14 short keys over {a, A, b, %, _, /}, with every
 // prefix of length <= 2 over that alphabet, the delimiters none "/" "a" "%", page sizes 1..3,
-// through ListObjects v2 (and v1 / the storage API for a rotating third of the requests).
+// through ListObjects v2 (and v1 / the storage API for a rotating third of the requests); the same
+// keys as uploads and as versions through ListMultipartUploads / ListObjectVersions over HTTP with
+// every prefix of length <= 1.
 func c06Exhaustive(emit func(c c06Case, seed uint64)) {
 	pool := []string{"a", "A", "ab", "aB", "a%", "a_", "a/", "a/b", "a/A", "b", "%", "_", "/", "b/a"}
 	alpha := []string{"a", "A", "b", "%", "_", "/"}
@@ -422,6 +424,14 @@ func c06Exhaustive(emit func(c c06Case, seed uint64)) {
 	}
 	for _, set := range sets {
 		c := c06Case{okeys: set}
+		// the same keys as pending uploads (the first key twice) and as a versioned history
+		// (a null version of the first key, then one version per key, the first key twice)
+		c.ukeys = append(append([]string{}, set...), set[0])
+		c.vops = []c06VOp{{kind: 0, key: set[0]}, {kind: 3}}
+		for _, key := range set {
+			c.vops = append(c.vops, c06VOp{kind: 0, key: key})
+		}
+		c.vops = append(c.vops, c06VOp{kind: 0, key: set[0]})
 		for _, p := range prefixes {
 			// skip prefixes whose first character matches no key even under LIKE: nothing is selected
 			for _, d := range delims {
@@ -435,6 +445,10 @@ func c06Exhaustive(emit func(c c06Case, seed uint64)) {
 						op = "so"
 					}
 					c.queries = append(c.queries, c06Query{op: op, pfx: p, delim: d, msub: -1, max: max})
+					if len(c06Runes(p)) <= 1 {
+						c.queries = append(c.queries, c06Query{op: "hu", pfx: p, delim: d, msub: -1, max: max},
+							c06Query{op: "hv", pfx: p, delim: d, msub: -1, max: max})
+					}
 				}
 			}
 		}
